@@ -6235,7 +6235,20 @@ impl Deserialize for bit_vec::BitVec<u32> {
         if numbytes & (1 << 63) != 0 {
             //New format
             numbytes &= !(1 << 63);
-            let mut ret = bit_vec::BitVec::with_capacity(numbytes * 8);
+            // The storage is whole 32 bit blocks and must be able to hold `numbits` bits;
+            // anything else is corrupt data (set_len below trusts its argument).
+            if numbytes % 4 != 0 || numbits > numbytes.saturating_mul(8) {
+                return Err(SavefileError::GeneralError {
+                    msg: format!(
+                        "Corrupt BitVec: {} bits cannot be stored in {} bytes of 32 bit blocks",
+                        numbits, numbytes
+                    ),
+                });
+            }
+            let Some(capacity_bits) = numbytes.checked_mul(8) else {
+                return Err(SavefileError::SizeOverflow);
+            };
+            let mut ret = bit_vec::BitVec::with_capacity(capacity_bits);
             unsafe {
                 let num_words = numbytes / 4;
                 let storage = ret.storage_mut();
@@ -6401,7 +6414,20 @@ impl Deserialize for bit_vec08::BitVec<u32> {
         if numbytes & (1 << 63) != 0 {
             //New format
             numbytes &= !(1 << 63);
-            let mut ret = bit_vec08::BitVec::with_capacity(numbytes * 8);
+            // The storage is whole 32 bit blocks and must be able to hold `numbits` bits;
+            // anything else is corrupt data (set_len below trusts its argument).
+            if numbytes % 4 != 0 || numbits > numbytes.saturating_mul(8) {
+                return Err(SavefileError::GeneralError {
+                    msg: format!(
+                        "Corrupt BitVec: {} bits cannot be stored in {} bytes of 32 bit blocks",
+                        numbits, numbytes
+                    ),
+                });
+            }
+            let Some(capacity_bits) = numbytes.checked_mul(8) else {
+                return Err(SavefileError::SizeOverflow);
+            };
+            let mut ret = bit_vec08::BitVec::with_capacity(capacity_bits);
             unsafe {
                 let num_words = numbytes / 4;
                 let storage = ret.storage_mut();
